@@ -537,6 +537,13 @@ def oracle_C06(an):
                 v.append("%s handler (%s machine) told capacity %d, real %d" % (e[1], e[3], e[7], cap))
             if e[6] != len(e[4]) or not e[5]:
                 v.append("%s handler told length %d for text %r (nul inside capacity: %s)" % (e[1], e[6], e[4], e[5]))
+            # every invocation of a test handler - the first one and every one after NEXT / DATA_NEXT - is
+            # handed the automatically formatted text again, whatever an earlier invocation left in the buffer
+            if e[1] == "t" and 0 <= e[2] < len(an.scn.cmds):
+                c = an.scn.cmds[e[2]]
+                exps = [expected_test_text(c, nl) for nl in (b"\n", b"\r\n")]
+                if exps[0] is not None and bytes(e[4]) not in [bytes(x) for x in exps]:
+                    v.append("test handler of command %d handed %r, automatically formatted text is %r" % (e[2], bytes(e[4]), exps[0]))
     return v
 
 
